@@ -44,11 +44,18 @@ JUDGE_CONSTS = "CONSTANTS\n  SinglePassThreshold = {th}\n"
 T2S = [-1, 0, 1, 2, 3, 4, 5, 6, 7]
 
 
+LONG = ["a", "bbb", "cc-long-name", "d"]          # differing lengths, sorted like their indices
+
+
 def gname(i, style):
+    if style == "strlen":
+        return LONG[int(i)]
     return f"g{i}" if style == "str" else int(i)
 
 
 def gidx(x):
+    if str(x) in LONG:
+        return LONG.index(str(x))
     return int(str(x).lstrip("g"))
 
 
@@ -271,13 +278,18 @@ def run(ctx: core.Ctx):
     for k in range(par["nrand"]):
         ng = int(rnd.randint(1, 4))
         npos, nneg = int(rnd.randint(ng, 8)), int(rnd.randint(ng, 8))
-        pos = [[int(rnd.randint(0, 6)), int(i % ng if i < ng else rnd.randint(ng))] for i in range(npos)]
+        neg_only = ng >= 2 and k % 4 == 0           # the last (longest-named) group has no positives
+        ngp = ng - 1 if neg_only else ng
+        pos = [[int(rnd.randint(0, 6)), int(i % ngp if i < ngp else rnd.randint(ngp))] for i in range(npos)]
         neg = [[int(rnd.randint(0, 6)), int(i % ng if i < ng else rnd.randint(ng))] for i in range(nneg)]
         a = {"pos": pos, "neg": neg, "sc": ["pos", "neg"][k % 2], "ec": ["pos", "neg"][(k // 2) % 2]}
         b = Beh(ids, len(cases))
-        style = "str" if k % 2 else "int"
+        style = ["int", "str", "strlen"][k % 3] if not neg_only else "strlen"
         method = ["replacement", "single_pass", "dynamic"][k % 3]
         strat = ["none", "by_label", "by_group"][(k // 3) % 3]
+        if neg_only:
+            # a group without positives: only replacement sampling is defined on its empty class
+            method, strat = ["replacement", "dynamic"][(k // 4) % 2], ["by_group", "none", "by_label"][(k // 8) % 3]
         c = {"method": method, "strat": strat}
         cases.append({"kind": "seeded", "input": a, "cfg": c, "np_seed": int(ctx.seed + k), "style": style})
         s = b.new(a, style, via="from_labels" if k % 2 else "init")
@@ -295,6 +307,20 @@ def run(ctx: core.Ctx):
                 b.getitem(smp, 3, order[-1], style)
                 b.group_cm(smp, 3, [1, 4, 8], with_metrics=False)
         ev_big += b.evs
+    # above the single-pass switch: 'dynamic' + by_group must still use replacement sampling
+    for bidx in range(2 if ctx.tier == "quick" else 6):
+        npos, nneg = 112 + 7 * bidx, 105 + 11 * bidx
+        pos = [[int(rnd.randint(0, 200)), int(i % 3)] for i in range(npos)]
+        neg = [[int(rnd.randint(0, 200)), int((i + 1) % 3)] for i in range(nneg)]
+        a = {"pos": pos, "neg": neg, "sc": ["pos", "neg"][bidx % 2], "ec": "pos"}
+        for method, strat in (("dynamic", "by_group"), ("dynamic", "none"), ("dynamic", "by_label")):
+            b = Beh(ids, len(cases))
+            cases.append({"kind": "seeded", "input": a, "cfg": {"method": method, "strat": strat},
+                          "np_seed": int(ctx.seed + 900 + bidx), "style": "strlen"})
+            s_ = b.new(a, "strlen")
+            if s_ is not None:
+                b.sample(s_, 1, 2, {"method": method, "strat": strat}, np_seed=int(ctx.seed + 900 + bidx))
+            ev_big += b.evs
     ctx.sample([e for e in ev_small if e["cid"] == 0])
     ctx.judge("Trace_C12", ev_small, cases=cases, tag="small", batch=3000, consts_cfg=JUDGE_CONSTS.format(th=2))
     ctx.judge("Trace_C12", ev_big, cases=cases, tag="big", batch=3000, consts_cfg=JUDGE_CONSTS.format(th=100))
